@@ -41,8 +41,8 @@ data, `sig` for everything else that `parSignedDataEqual` (JSON equality) can se
 namespace CharonV.ParSigDB
 
 /-- which variant `/repo/core/parsigdb/memory.go` currently implements (flip after a `fix:`). -/
-def codeContinueOnError : Bool := false
-def codeNewRootOnly : Bool := false
+def codeContinueOnError : Bool := true
+def codeNewRootOnly : Bool := true
 
 structure PSig where
   share : Nat
